@@ -110,8 +110,122 @@ fn mk_input(g: bool, swap: bool, sid: bool, norm: bool, a: &str, b: &str, na: us
     ])
 }
 
+/// `k` random edits (transposition, delete, replace, insert) anywhere in `b`
+fn edit_anywhere(rng: &mut Rng, b: &mut Vec<&'static str>, k: usize) {
+    for _ in 0..k {
+        match rng.below(4) {
+            0 if b.len() >= 2 => {
+                let p = rng.below(b.len() - 1);
+                b.swap(p, p + 1);
+            }
+            1 if !b.is_empty() => {
+                let p = rng.below(b.len());
+                b.remove(p);
+            }
+            2 if !b.is_empty() => {
+                let p = rng.below(b.len());
+                b[p] = unit(rng, false);
+            }
+            _ => {
+                let p = rng.below(b.len() + 1);
+                b.insert(p, unit(rng, false));
+            }
+        }
+    }
+}
+
+/// the long-string stream (the model side is the binary-number dynamic programme of C12_Fast.v alone).
+/// `lo..=hi` = length of the long text in units; both texts long for the first three kinds.
+fn long_pair(rng: &mut Rng, lo: usize, hi: usize, short_hi: usize, kind: usize) -> (Vec<&'static str>, Vec<&'static str>) {
+    let n = rng.range(lo, hi);
+    match kind {
+        0 => {
+            // near-identical: 1..8 edits anywhere
+            let a = rand_units(rng, n, false);
+            let mut b = a.clone();
+            let k = rng.range(1, 8);
+            edit_anywhere(rng, &mut b, k);
+            (a, b)
+        }
+        1 => {
+            // a block moved (and one more edit half of the time)
+            let a = rand_units(rng, n, false);
+            let len = rng.range(2, (n / 12).max(2));
+            let from = rng.below(n - len + 1);
+            let mut b = a.clone();
+            let block: Vec<&'static str> = b.drain(from..from + len).collect();
+            let to = rng.below(b.len() + 1);
+            let tail = b.split_off(to);
+            b.extend(block);
+            b.extend(tail);
+            if rng.chance(1, 2) {
+                edit_anywhere(rng, &mut b, 1);
+            }
+            (a, b)
+        }
+        2 => {
+            // whitespace-only differences: spaces (or NBSP) inserted / removed at about 1 position in 60
+            let a = rand_units(rng, n, false);
+            let mut b: Vec<&'static str> = vec![];
+            for u in &a {
+                let ws = *u == " " || *u == "\u{a0}";
+                if ws && rng.chance(1, 20) {
+                    continue;
+                }
+                b.push(*u);
+                if rng.chance(1, 60) {
+                    b.push(if rng.chance(1, 4) { "\u{a0}" } else { " " });
+                }
+            }
+            (a, b)
+        }
+        3 => {
+            // long against short (either could be empty)
+            let m = rng.below(short_hi + 1);
+            (rand_units(rng, n, false), rand_units(rng, m, false))
+        }
+        4 => {
+            // long against a short EXCERPT with a few edits (the prefix distance is small)
+            let a = rand_units(rng, n, false);
+            let m = rng.range(1, short_hi.max(1)).min(n);
+            let from = if rng.chance(1, 2) { 0 } else { rng.below(n - m + 1) };
+            let mut b = a[from..from + m].to_vec();
+            let k = rng.below(4);
+            edit_anywhere(rng, &mut b, k);
+            (a, b)
+        }
+        _ => {
+            // independent texts, both of half the length: long scripts, large numbers
+            let m = rng.range(lo / 2, hi / 2);
+            (rand_units(rng, n / 2, false), rand_units(rng, m, false))
+        }
+    }
+}
+
 impl Prop for C12 {
     fn gen(&mut self, rng: &mut Rng, _tier: Tier, i: usize, _n: usize) -> Val {
+        // the long-string stream: 1 case in 400 with texts of 2000..2400 units each (kinds 0-2, 5: halves) or
+        // 5000..20000 units against at most 40 (kinds 3, 4); 1 case in 25 of middle size (50..400 units; against
+        // at most 60 for kinds 3, 4).  Flags drawn at random (the index is fixed modulo 16).
+        if i % 400 == 199 || i % 25 == 12 {
+            let long = i % 400 == 199;
+            let fl = rng.below(16);
+            let (g, swap, sid, norm) = (fl & 1 != 0, fl & 2 != 0, fl & 4 != 0, fl & 8 != 0);
+            let kind = rng.below(6);
+            let (a, b) = if !long {
+                long_pair(rng, 50, 400, 60, kind)
+            } else if kind == 3 || kind == 4 {
+                long_pair(rng, 5000, 20000, 40, kind)
+            } else {
+                long_pair(rng, 2000, 2400, 40, kind)
+            };
+            let (a, b) = if rng.chance(1, 2) { (a, b) } else { (b, a) };
+            // distances(): usually one pair or none; 1 in 5 a batch of 4..6 alternating between the whole texts and
+            // their first characters (long and short pairs mixed); 1 in 10 unequal lengths (Err)
+            let na = if rng.chance(1, 5) { rng.range(4, 6) } else { rng.below(3) };
+            let nb = if rng.chance(1, 10) { na + 1 } else { na };
+            return mk_input(g, swap, sid, norm, &a.concat(), &b.concat(), na, nb);
+        }
         // all 16 flag combinations in turn
         let fl = i % 16;
         let (g, swap, sid, norm) = (fl & 1 != 0, fl & 2 != 0, fl & 4 != 0, fl & 8 != 0);
@@ -303,6 +417,13 @@ impl Prop for C12 {
         let nops = out.nth(2).and_then(|v| v.as_l()).map(|v| v.len()).unwrap_or(0);
         if a != b && ca >= 2 && cb >= 2 && nops >= 2 {
             tags.push("nt".into());
+        }
+        // the model's size threshold (`big` of C12_FastRun.v): above it the fast model runs alone
+        if ca + cb > 48 {
+            tags.push("fast-only".into());
+        }
+        if ca.max(cb) >= 2000 {
+            tags.push("long".into());
         }
         if let Some(ops) = out.nth(2).and_then(|v| v.as_l()) {
             if ops.iter().any(|o| o.nth(0).and_then(|v| v.as_i()) == Some(3)) {
